@@ -100,6 +100,7 @@ type injected struct {
 	authentic bool // signed by B over this exact payload
 	v, g      int
 	payload   string
+	otherDest bool // B submitted it for delivery to another peer
 }
 
 type world struct {
@@ -347,6 +348,10 @@ func (e *engine) scenario(kind string, n int) {
 		case "authentic":
 			m = e.mkMsg(e.kB, q, payload)
 			in.authentic, in.v, in.g = true, 1, 1
+		case "authentic-for-other-peer":
+			m = e.mkMsg(e.kB, q, payload)
+			in.authentic, in.v, in.g = true, 1, 1
+			in.otherDest = true
 		case "third-party": // validly signed by C, presented on the session with B (re-attribution)
 			m = e.mkMsg(e.kC, q, payload)
 			in.v, in.g = 1, 0
@@ -402,6 +407,14 @@ func (e *engine) scenario(kind string, n int) {
 		w.quiesce(500 * time.Microsecond)
 		startSend(3 * time.Second) // a later send must not be blocked
 		act("second send")
+	case "replay":
+		// Known finding (format level): a message B signed for delivery to ANOTHER peer (or in an
+		// earlier session) carries no destination/session, so the relay can replay it to A.
+		w.auto = ""
+		open()
+		startRecv(500 * time.Millisecond)
+		inject("authentic-for-other-peer")
+		act("relay replays to A a message that B submitted for delivery to peer C")
 	case "malicious":
 		w.auto = ""
 		open()
@@ -471,6 +484,9 @@ func (e *engine) scenario(kind string, n int) {
 		if in == nil || !in.authentic || string(m.GetSignedMsg().GetData()) != in.payload {
 			mon = fmt.Sprintf("the application was handed a message (seqno %d) that was not signed by the remote peer of the session over that payload", m.GetSeqno())
 			key = "sigcli.recv:forged"
+		} else if in.otherDest {
+			mon = "the application was handed a message from B that B had submitted for delivery to a different peer (the signed message names neither destination nor session, so a relay can replay it)"
+			key = "sigcli.recv:cross-destination"
 		}
 	}
 	okSends, pending := 0, 0
@@ -556,6 +572,9 @@ func (e *engine) run() {
 	e.rep.Require("trace.honest", "trace.reopen-in-flight", "trace.malicious")
 	e.rep.Extra["events"], e.rep.Extra["sends_ok"], e.rep.Extra["delivered"] = 0, 0, 0
 	e.scenario("reopen-in-flight", 1)
+	if e.a.Prop == "C19" {
+		e.scenario("replay", 1)
+	}
 	for i := 0; i < 3*e.a.Scale; i++ {
 		e.scenario("honest", 2+e.rng.Intn(4))
 	}
